@@ -1282,3 +1282,30 @@ def canon(e, depth=0):
     if len(uniq) == 1:
         return uniq[0]
     return ("phi", tuple(sorted(uniq, key=lambda x: fmt(x))))
+
+
+def field_writes(facts, adt_re, field):
+    """every write of `field` of a value whose type matches adt_re, crate-wide: assignments `<place>.field = rv` and aggregate
+    constructions of the ADT. Yields (body, block index, line, kind, value expression)."""
+    import types as _t
+    from facts import Place as _Place
+    out = []
+    for path, b in facts.bodies.items():
+        prov = None
+        live = b.live_blocks()
+        for blk in b.blocks:
+            if blk.cleanup or blk.idx not in live:
+                continue
+            for s in blk.stmts:
+                if s.k != "a":
+                    continue
+                if s.lhs.proj and isinstance(s.lhs.proj[-1], tuple) and s.lhs.proj[-1][0] == "f" and s.lhs.proj[-1][2] == field:
+                    base = _t.SimpleNamespace(local=s.lhs.local, proj=s.lhs.proj[:-1])
+                    ty = b.place_ty(base)
+                    if ty and re.search(adt_re, ty):
+                        prov = prov or Prov(b, facts)
+                        out.append((b, blk.idx, s.line, "assign", prov.rvalue(s.rv, blk.idx)))
+                if s.rv.k == "agg" and re.search(adt_re, str(s.rv.j.get("def"))) and field in (s.rv.j.get("fields") or []):
+                    prov = prov or Prov(b, facts)
+                    out.append((b, blk.idx, s.line, "construct", prov.operand(s.rv.ops[s.rv.j["fields"].index(field)])))
+    return out
